@@ -513,6 +513,24 @@ pub fn grid(tier: Tier) -> Vec<Case> {
             lo += lo_step;
         }
     }
+    // (9) decimal multipleOf against decimal windows that hold exactly one / no multiple (the satisfiability test must not
+    //     be done in binary floating point), and integer schemas with a fractional multipleOf
+    for &m in &[100i64, 10, 250, 500, 1250, 1500, 2500] {
+        let mut lo = -600i64;
+        while lo <= 1600 {
+            for span in [0i64, 20, 50, 100, 150, 300] {
+                let pat = (lo / 50 + span / 10).rem_euclid(4);
+                v.push(Case { integer: false, lo: Some((lo, pat & 1 == 1)), hi: Some((lo + span, pat & 2 == 2)), mult: Some(m), lo2: None, hi2: None, big: 0 });
+            }
+            lo += 50;
+        }
+        for a in -12i64..=12 {
+            for span in 0i64..=6 {
+                let pat = (a + span).rem_euclid(4);
+                v.push(Case { integer: true, lo: Some((a * 1000, pat & 1 == 1)), hi: Some(((a + span) * 1000, pat & 2 == 2)), mult: Some(m), lo2: None, hi2: None, big: 0 });
+            }
+        }
+    }
     // (6) both keywords on one side (minimum + exclusiveMinimum, maximum + exclusiveMaximum): equal, and off by one either way
     let wb: i64 = tier.pick(30, 120);
     for b in -wb..=wb {
@@ -556,7 +574,7 @@ impl Prop for C08 {
     fn rule(&self) -> String {
         "grid: (1) every integer pair lo<=hi in [-W,W]^2 (quick W=120, thorough 400) with a rotating inclusive/exclusive pattern, (2) half-open and \
          unbounded schemas, (3) number and integer schemas over a structured set of decimal bounds (<= 3 fractional digits: around 0, +-1, equal \
-         integer parts, equal prefixes, trailing zeros, 9-runs), (4) bounds at 10^e-1, 10^e, 10^e+1 for e <= 15, (8) number schemas with both bounds inside one integer part: every upper bound in thousandths up to +0.42 against lower bounds on a 0.05 (thorough 0.01) raster, some mirrored to negative, (7) bounds m*10^e for m in {1,2,5,9}, e in {12,15..20,22} \
+         integer parts, equal prefixes, trailing zeros, 9-runs), (4) bounds at 10^e-1, 10^e, 10^e+1 for e <= 15, (9) multipleOf in {0.1,0.01,0.25,0.5,1.25,1.5,2.5} against decimal windows of width 0..0.3 on a 0.05 raster and against integer windows under integer schemas, (8) number schemas with both bounds inside one integer part: every upper bound in thousandths up to +0.42 against lower bounds on a 0.05 (thorough 0.01) raster, some mirrored to negative, (7) bounds m*10^e for m in {1,2,5,9}, e in {12,15..20,22} \
          (up to and beyond 2^63; literals also around +-2^53, 2^63, 2^64), (5) multipleOf in {1,2,3,5,7,10,25,\
          100,0.5,0.1,0.25,0.01,1.5} crossed with windows; plus random bounds. Literals per schema: every integer in/around small windows, bound \
          +-10^-k (k<=6), digit-count neighbours, each re-spelt with 1-2 trailing zeros. evaluation = one literal verdict (validate_tokens(text+EOS)) \
